@@ -73,6 +73,7 @@ func runH(c HCase) error {
 		at   time.Duration
 	}
 	tcpLog := make([][]tcpWin, len(c.Proxies))
+	tcpAccepts := make([][]time.Duration, len(c.Proxies)) // when the harness accepted a probe connection (= an observed success)
 	var closers []func()
 	defer func() {
 		for _, f := range closers {
@@ -157,6 +158,9 @@ func runH(c HCase) error {
 									if e != nil {
 										return
 									}
+									mu.Lock()
+									tcpAccepts[i] = append(tcpAccepts[i], ss.Now())
+									mu.Unlock()
 									cn.Close()
 								}
 							}()
@@ -299,42 +303,41 @@ func runH(c HCase) error {
 			}
 			continue
 		}
-		// tcp (time driven): a withdrawal needs maxFailed consecutive failed probes, one per second:
-		// it cannot come earlier than (maxFailed-1) s after the port went down
-		desc := fmt.Sprintf("proxy %s (tcp check, maxFailed=%d, script %v; NewProxy at %v, CloseProxy at %v)", name, p.MaxFailed, p.Script, ms(regs), ms(closes))
+		// tcp: the port is open or closed for whole seconds; probes drift against those windows (a 1 s window can go
+		// unprobed), so the oracle uses what the harness OBSERVED: every accepted connection is a successful probe.
+		//  - a withdrawal comes no earlier than maxFailed probe intervals (1 s each) after the last observed success
+		//  - a (re-)registration is preceded by an observed success since the start / since the last withdrawal
+		desc := fmt.Sprintf("proxy %s (tcp check, maxFailed=%d, script %v; NewProxy at %v, CloseProxy at %v, probes accepted at %v)", name, p.MaxFailed, p.Script, ms(regs), ms(closes), ms(tcpAccepts[i]))
+		const jitter = 350 * time.Millisecond // accept is stamped by a harness goroutine, CloseProxy / NewProxy on arrival
 		for _, cl := range closes {
-			// find the start of the down-window containing cl
-			var downAt time.Duration = -1
-			for _, w := range tcpLog[i] {
-				if w.at > cl {
-					break
-				}
-				if w.down {
-					if downAt < 0 {
-						downAt = w.at
-					}
-				} else {
-					downAt = -1
+			var last time.Duration = -1
+			for _, a := range tcpAccepts[i] {
+				if a <= cl+jitter {
+					last = a
 				}
 			}
-			if downAt < 0 {
-				// the port was up when the proxy was withdrawn: only a probe in flight from the previous down window can explain it
-				var lastDownEnd time.Duration = -1
-				for k, w := range tcpLog[i] {
-					if w.at > cl {
-						break
-					}
-					if !w.down && k > 0 && tcpLog[i][k-1].down {
-						lastDownEnd = w.at
-					}
-				}
-				if lastDownEnd < 0 || cl-lastDownEnd > 1200*time.Millisecond {
-					return fmt.Errorf("%s: withdrawn at %dms while its port was open", desc, cl.Milliseconds())
-				}
-				continue
+			if last < 0 {
+				continue // never healthy: covered by the registration rule below
 			}
-			if need := time.Duration(p.MaxFailed-1)*time.Second - 150*time.Millisecond; cl-downAt < need {
-				return fmt.Errorf("%s: withdrawn %dms after the port went down; %d consecutive failed probes one second apart need at least %v (a success restarts the count)", desc, (cl - downAt).Milliseconds(), p.MaxFailed, need)
+			if need := time.Duration(p.MaxFailed)*time.Second - jitter; cl-last < need {
+				return fmt.Errorf("%s: withdrawn %dms after its last successful probe; %d consecutive failed probes, one per second after that success, need at least %v", desc, (cl - last).Milliseconds(), p.MaxFailed, need)
+			}
+		}
+		for _, rg := range regs {
+			var since time.Duration = 0
+			for _, cl := range closes {
+				if cl < rg {
+					since = cl
+				}
+			}
+			ok := false
+			for _, a := range tcpAccepts[i] {
+				if a >= since-jitter && a <= rg+jitter {
+					ok = true
+				}
+			}
+			if !ok {
+				return fmt.Errorf("%s: registered at %dms without a successful probe since %dms", desc, rg.Milliseconds(), since.Milliseconds())
 			}
 		}
 	}
